@@ -8,6 +8,10 @@ tie:   generated call histories (argument tuples x every call form x time advanc
        spellings) run on the real `Cache('mem://')` through `cache.cache` / `cache.iterator` under the virtual
        clock and on the model driver; compared per call:  impl == model (correspondence)  and  impl satisfies the
        property statement (spec oracle in harness/decorhist.py).  TTL parser: enumerated table impl / model / meaning.
+       Scripted failures come from a family of exception classes x payload shapes (plain, message built in __init__,
+       two positional / keyword-only constructor arguments, re-ordered args, attributes + note, `from cause`, own
+       __reduce__); whatever exception a caller receives is compared with what the execution raised by a complete,
+       identity-independent observation (type, args, str(), attributes, notes, cause) - `decorhist.observe`.
 """
 from __future__ import annotations
 
@@ -33,12 +37,19 @@ TRUSTED = [
     "harness: virtual clock (harness/vtime.py), canonicalisation of results, the Python spec oracle (harness/decorhist.py), "
     "the AST reader of _STR_TO_DELTA (harness/ttlgen.py)",
     "sequential calls only (single-flight / concurrency is C07); the consumer drains every stream without letting time pass during a replay",
+    "an exception is observed through type, args, str(), instance attributes, notes and __cause__ (type and args); __traceback__ and "
+    "__context__ are not compared; the model's payload id of an exception stands for exactly this observation",
+    "with secret= (pickling serializer) only exception shapes that pickle itself rebuilds faithfully are scripted (plain class, plain class "
+    "with attributes and a note, a class with its own __reduce__): what pickle does to a value is C09/C10's subject",
 ]
 
 PARTIAL = ("not modelled / not sampled: ttl=None and ttl=0 ('no ttl'; theorems treat 0 as such), non-dyadic TTLs, non-ASCII duration strings "
            "(str.isdigit/lower/strip are modelled on ASCII), a condition callable that returns an exception instance for a normal result, "
            "a function that *returns* an exception instance, consumers that abandon a stream or let time pass while reading a replay, "
-           "the legacy marker value True, tags=, lock=, upper=")
+           "the legacy marker value True, tags=, lock=, upper=; exceptions that are not `Exception`s (CancelledError, KeyboardInterrupt), "
+           "__traceback__ / __context__ of a replayed exception, exception classes that do not survive pickling under secret=; "
+           "exception shape 8 (an instance that is falsy: the pinned tree returns it instead of raising it - finding reported in "
+           "proposed_fixes/C02_falsy_exception_returned.diff, shape not drawn until repaired or registered)")
 
 SIMPLE_CONDS = ["all", "nn", "we:", "we:1", "we:0+2", "oe:", "oe:1", "tc:0", "tc:1", "tc:8",
                 "fn:TTTFFF", "fn:TFTXFX", "fn:yyyyyy", "fn:zTyXyT", "fn:TTFXXX", "fn:FFFFFF", "fn:XXXXXX"]
@@ -73,6 +84,15 @@ def ttl_choices(rng):
     return f"f{t}", t
 
 
+def exc_kind(rng, config) -> str:
+    """an exception outcome: class x payload shape (plain class, message built in __init__, several / keyword-only
+    constructor arguments, re-ordered args, attributes + note, `from cause`, own __reduce__); under the pickling
+    configuration only shapes that pickle itself rebuilds faithfully"""
+    c = rng.randrange(3)
+    shape = rng.choice(dh.PICKLE_FAITHFUL) if config == "secret" else rng.choice([0, 0] + dh.GENERATED_SHAPES)
+    return f"e{c}" if shape == 0 else f"e{c}p{shape}"
+
+
 def advances(rng, t):
     return rng.choice([1, 1, t - 1 if t > 1 else 1, t, t, t + 1, max(1, t // 2), 2 * t, 4, 8])
 
@@ -88,12 +108,13 @@ def gen_simple(rng, iterish=False) -> dict:
             ops.append(["call", rng.randrange(nkeys), rng.randrange(6)])
         else:
             ops.append(["adv", advances(rng, t)])
+    config = rng.choice(["plain", "plain", "secret"])
     script = []
     for _ in range(sum(1 for o in ops if o[0] == "call")):
-        k = rng.choice(["v", "v", "v", "n", "n", f"f{rng.randrange(4)}", f"e{rng.randrange(3)}", f"e{rng.randrange(3)}"])
+        k = rng.choice(["v", "v", "v", "n", "n", f"f{rng.randrange(4)}", exc_kind(rng, config), exc_kind(rng, config)])
         d = rng.choice([0, 0, 0, 1, 2, max(1, t - 1), t, 9])
         script.append(f"{k}:{d}" if d else k)
-    return {"kind": "simple", "config": rng.choice(["plain", "plain", "secret"]), "sig": rng.choice(["ab", "ab", "kw"]),
+    return {"kind": "simple", "config": config, "sig": rng.choice(["ab", "ab", "kw"]),
             "keytpl": rng.choice([None, None, "{a}:{b}", "k-{a}-{b}"]), "prefix": rng.choice(["", "", "p"]),
             "protected": rng.random() < 0.3, "cond": cond, "condv": rng.randrange(4), "ttl": ttl, "ttlv": rng.randrange(2),
             "script": script, "ops": ops}
@@ -112,6 +133,7 @@ def gen_iter(rng) -> dict:
             ops.append(["call", rng.randrange(nkeys), rng.randrange(6)])
         else:
             ops.append(["adv", advances(rng, t)])
+    config = rng.choice(["plain", "plain", "secret"])
     runs = []
     for _ in range(sum(1 for o in ops if o[0] == "call")):
         n = rng.choice([0, 1, 2, 2, 3, 3, 4])
@@ -122,11 +144,11 @@ def gen_iter(rng) -> dict:
             steps.append(f"{k}:{d}" if d else k)
         if rng.random() < 0.25:
             d = rng.choice([0, 0, 1, max(1, t - 1), t, t + 1])
-            k = f"e{rng.randrange(3)}"
+            k = exc_kind(rng, config)
             steps.append(f"{k}:{d}" if d else k)
         fd = rng.choice([0, 0, 0, 1, max(1, t - 1), t, t + 1])
         runs.append((",".join(steps) or "-") + f"/{fd}")
-    return {"kind": "iter", "config": rng.choice(["plain", "plain", "secret"]), "sig": rng.choice(["ab", "ab", "kw"]),
+    return {"kind": "iter", "config": config, "sig": rng.choice(["ab", "ab", "kw"]),
             "keytpl": rng.choice([None, None, "{a}:{b}"]), "cond": cond, "condv": rng.randrange(4), "ttl": ttl,
             "ttlv": rng.randrange(2), "script": runs, "ops": ops}
 
@@ -163,14 +185,32 @@ def shrink(case, pred):
         return c
     ops = ddmin(case["ops"], lambda o: pred(with_ops(o)))
     small = with_ops(ops)
-    ncalls = sum(1 for o in ops if o[0] == "call")
-    small["script"] = case["script"][:ncalls]
+    # executions that only serve to reach a later script entry: drop script entries one by one, re-minimising the ops
+    progress = True
+    while progress and len(small["script"]) > 1:
+        progress = False
+        for i in range(len(small["script"])):
+            cand = dict(small)
+            cand["script"] = small["script"][:i] + small["script"][i + 1:]
+            if pred(cand):
+                cand["ops"] = ddmin(cand["ops"], lambda o, c=cand: pred({**c, "ops": o}))
+                small = cand
+                progress = True
+                break
+    ncalls = sum(1 for o in small["ops"] if o[0] == "call")
+    full = small["script"]
+    small = dict(small)
+    small["script"] = full[:ncalls]
     if not pred(small):
-        small["script"] = case["script"]
+        small["script"] = full
     return small
 
 
 def signature_of(case, trace, idx, msg) -> str:
+    if "not the exception that was raised" in msg:
+        return "replayed-exception-differs-from-raised"
+    if "returned:" in msg or "yielded:" in msg:
+        return "exception-returned-instead-of-raised"
     if case["kind"] == "iter":
         if "raised" in msg:
             return "decorator-raises"
@@ -240,13 +280,13 @@ def describe_case(case) -> list[str]:
     for n, b in enumerate(case["script"]):
         if simple:
             k, d = dh.parse_beh(b)
-            what = {"v": f"returns 'v{n}'", "n": "returns None"}.get(k) or (f"returns {dh.FALSY[int(k[1:])]!r}" if k[0] == "f" else f"raises E{k[1:]}({n})")
+            what = {"v": f"returns 'v{n}'", "n": "returns None"}.get(k) or (f"returns {dh.FALSY[int(k[1:])]!r}" if k[0] == "f" else "raises " + dh.expected_exc_text(f"x{k[1:]}.{n}"))
             out.append(f"  execution {n}: takes {d / 8} s, {what}")
         else:
             steps, fd = dh.parse_run(b)
             parts = []
             for i, (k, d) in enumerate(steps):
-                what = {"v": f"yield 'v{n}.{i}'", "n": "yield None"}.get(k) or (f"yield {dh.FALSY[int(k[1:])]!r}" if k[0] == "f" else f"raise E{k[1:]}({n})")
+                what = {"v": f"yield 'v{n}.{i}'", "n": "yield None"}.get(k) or (f"yield {dh.FALSY[int(k[1:])]!r}" if k[0] == "f" else "raise " + dh.expected_exc_text(f"x{k[1:]}.{n}"))
                 parts.append((f"<{d / 8} s> " if d else "") + what)
             out.append(f"  run {n}: " + "; ".join(parts) + (f"; <{fd / 8} s>" if fd else "") + ("" if parts else " (yields nothing)"))
     for op in case["ops"]:
@@ -316,6 +356,9 @@ def interesting(case, trace, log) -> set[str]:
                         out.add("falsy-served-from-store")
                     if y["kind"].startswith("e"):
                         out.add("exception-replayed-from-store")
+                        shape = dh.exc_of_kind(y["kind"])[1]
+                        if shape:
+                            out.add("replayed-exception-shape:" + dh.SHAPES[shape][0])
                     if y["dur"] > 0:
                         out.add("freshness-counted-from-return-of-slow-execution")
         if ttl.startswith("cr:") and len({x["kind"][0] for x in log}) > 1:
@@ -359,6 +402,9 @@ def interesting(case, trace, log) -> set[str]:
                     out.add("replay-with-falsy-non-last-item")
                 if items and items[-1].startswith("x"):
                     out.add("replay-ending-in-exception")
+                    shape = dh.exc_of_kind(dh.kind_of(items[-1]))[1]
+                    if shape:
+                        out.add("replay-ending-in-exception-shape:" + dh.SHAPES[shape][0])
                 src = [y for y in log[:seen] if y["key"] == k and y["outs"] == items]
                 if src and now - src[-1]["start"] == tt_of(k) - 1:
                     out.add("replay-one-tick-before-marker-deadline")
@@ -553,7 +599,8 @@ def run(chk: Check) -> int:
         "evaluations": evaluations + tbl["n"],
         "distinct_nontrivial": len(distinct),
         "rule": "call histories of 2..14 ops (calls over up to 4 bound-argument tuples in every positional/keyword call form of two "
-                "signatures, time advances around the ttl) x scripted outcomes with durations x 17 (simple) / 11 (iterator) conditions x "
+                "signatures, time advances around the ttl) x scripted outcomes with durations (failures: 3 exception classes x %d payload "
+                "shapes, compared by complete observation) x 17 (simple) / 11 (iterator) conditions x " % len(dh.GENERATED_SHAPES) +
                 "all TTL spelling families x plain/signed+pickled mem:// x key templates, generated from VERIF_SEED; a case is "
                 "non-trivial iff it reached at least one state listed under interesting_states_cases; distinct = distinct case dicts",
         "samples": samples,
@@ -563,6 +610,9 @@ def run(chk: Check) -> int:
         "ttl_spelling_families": fams,
         "condition_families": conds,
         "interesting_states_cases": states,
+        "exception_payload_shapes": {str(k): dh.SHAPES[k][0] for k in dh.GENERATED_SHAPES},
+        "exception_payload_shapes_under_pickling": dh.PICKLE_FAITHFUL,
+        "exception_payload_shapes_pending": {str(k): dh.SHAPES[k][0] for k in sorted(dh.PENDING_SHAPES)},
         "ttl_table": {"spellings_checked": tbl["n"], "exhaustive": True,
                       "rule": "every string of <= %d <n><unit> segments over units d,h,m,s and n in %s, case/blank variants, the README shape "
                               "with random numbers, bare numbers, malformed strings; int/float/timedelta/'n'/'ns'/callable spellings of 9 durations"
